@@ -117,6 +117,13 @@ def _arr(desc, name, shape, kind="complex"):
             out = np.asarray(rng.integers(0, 2, shape), float).reshape(shape)
             out.reshape(-1)[0] = 1.0
             return out
+        # (k-space weights are applied as weights**0.5 and need not be real: soft gating
+        # with a phase, or negative weights kept in a complex array)
+        if st == 7:
+            return (rng.random(shape) + 0.1) * np.exp(2j * np.pi * rng.random(shape))
+        if st == 8:
+            return np.asarray((rng.random(shape) + 0.1) * (rng.integers(0, 2, shape) * 2 - 1),
+                              complex).reshape(shape)
         return rng.random(shape) + 0.1
     raise ValueError(kind)
 
@@ -1088,6 +1095,51 @@ def _gen_diag(rng, depth, ishape, maxn):
     if ishape is not None and list(ishape) != ish:
         d = _compose([d, _adapter(rng, ish, ishape)])
     return d
+
+
+# ---------------------------------------------------- construction history --
+
+def _walk_leaves(d):
+    if "parts" in d:
+        for p in d["parts"]:
+            yield from _walk_leaves(p)
+    elif "A" in d and isinstance(d["A"], dict):
+        yield from _walk_leaves(d["A"])
+    else:
+        yield d
+
+
+SIBLING_KINDS = ("FFT", "IFFT", "Flip", "Sum", "Wavelet", "InverseWavelet", "Circshift")
+
+
+def prime_siblings(desc):
+    """Build and use "sibling" operators before the operator under test is built: same kind,
+    geometry and parameters, with the axes listed in another order or spelling.  Anything the
+    library keeps per geometry outside the operator object (module-level memos, plans) is
+    then filled by another configuration first - each operator must still be right when it is
+    not the first of its geometry in the process.  Returns the number of siblings used."""
+    n = 0
+    for leaf in _walk_leaves(desc):
+        ax = leaf.get("axes")
+        if leaf["op"] not in SIBLING_KINDS or not isinstance(ax, (list, tuple)) or not ax:
+            continue
+        shape = leaf["oshape"] if leaf["op"] == "InverseWavelet" else leaf["ishape"]
+        nd = len(shape)
+        variants = []
+        if len(ax) >= 2:
+            variants.append(list(ax)[::-1])
+        variants.append([int(a) - nd if a >= 0 else int(a) + nd for a in ax])
+        for v in variants:
+            sib = dict(leaf, axes=v)
+            if leaf["op"] == "Circshift" and v == list(ax)[::-1]:
+                sib["shift"] = list(leaf["shift"])[::-1]
+            try:
+                S = build(sib)
+                S.H(S(np.ones(S.ishape, complex)))
+                n += 1
+            except Exception:
+                pass
+    return n
 
 
 # ------------------------------------------------------------------ build --
